@@ -105,7 +105,7 @@ class _Ctx:
         self.tol_blas = 1e-10 if self.f64 else 2e-5
         self.mech = {"model": c["spec"]["k"], "kinds": "+".join(M.kinds_in(c["spec"])), "axes": len(c["batch"])}
         self.decisive = 0
-        self.noise = 0.0          # estimated size of float rounding noise in the output (see _sensitivity)
+        self.noise = 0.0          # estimated size of float rounding noise in the output (see _rounding_noise)
 
     def count(self, k, n=1):
         self.res["counters"][k] = self.res["counters"].get(k, 0) + n
@@ -142,7 +142,7 @@ def _judge(ctx, monitor, got, want, tol, scale, what, kind, **kw):
     ctx.count(monitor + "_compared")
     if bit:
         ctx.count(monitor + "_bitwise_equal")
-    allowed = max(tol * scale, (64 if tol == ctx.tol_blas else 16) * ctx.noise)
+    allowed = max(tol * scale, (32 if tol == ctx.tol_blas else 8) * ctx.noise)
     if d < float("inf") and allowed > 0:
         ctx.res["worst_ratio"] = max(ctx.res.get("worst_ratio", 0.0), d / allowed)
     if allowed > tol * scale:
@@ -154,20 +154,21 @@ def _judge(ctx, monitor, got, want, tol, scale, what, kind, **kw):
     return True
 
 
-def _sensitivity(ctx, model, data, decl, y0, g):
-    """Conditioning of this model at this input: output change under an absolute input perturbation delta,
-    scaled down to one unit of rounding.  Only widens tolerances of ill-conditioned (deep polynomial) nets."""
-    delta, eps = (1e-8, 2.3e-16) if ctx.f64 else (1e-4, 1.2e-7)
-    pert = {k: v + delta * (torch.randint(0, 2, v.shape, generator=g).to(v.dtype) * 2 - 1) * v.abs().clamp(min=1.0)
-            for k, v in data.items()}
+def _rounding_noise(ctx, other, data, decl, y0):
+    """Size of the float rounding noise in this model's output on these rows: the same weights and the same rows
+    evaluated in the other precision (float32 <-> float64 copy of the model).  |y32 - y64| is the accumulated
+    float32 rounding error; for a float64 model it is scaled by eps64/eps32.  Used only to widen the comparison
+    tolerances of ill-conditioned random nets (deep quadratic / polynomial chains) and to skip chaotic ones."""
+    od = torch.float32 if ctx.f64 else torch.float64
     try:
-        y = _fwd(ctx, model, pert, decl)[0]
+        y = _fwd(ctx, other, {k: v.to(od) for k, v in data.items()}, decl)[0]
     except Exception:
-        return 0.0, 0.0
-    d = (y - y0).abs()
+        return float("inf"), float("inf")
+    d = (y.to(torch.float64) - y0.to(torch.float64)).abs()
     if not bool(torch.isfinite(d).all()):
         return float("inf"), float("inf")
-    return float(d.max()) * eps / delta, float(d.max())
+    err32 = float(d.max())
+    return err32 * (1.9e-9 if ctx.f64 else 1.0), err32
 
 
 def _rand(ctx, g, shape, name=None):
@@ -436,10 +437,16 @@ def run_case(c):
         model = M.build(spec)
     except Exception as e:
         raise Inconclusive("generated spec could not be built: %r" % (e,))
+    torch.manual_seed(c["seed"])
+    other = M.build(spec)                 # the same weights in the other precision (float32 values in both)
+    other.load_state_dict(model.state_dict())
     if ctx.f64:
         model = model.double()
+    else:
+        other = other.double()
     model.eval()
-    for p in model.parameters():
+    other.eval()
+    for p in list(model.parameters()) + list(other.parameters()):
         p.requires_grad_(False)
     state0 = {k: v.clone() for k, v in model.state_dict().items()}
     decl = list(model.input_space.keys())
@@ -470,8 +477,8 @@ def run_case(c):
         ctx.count("degenerate_nonfinite_output_skipped")      # an overflowing random net decides nothing
         return res
     scale = max(1.0, float(y0.abs().max()))
-    ctx.noise, moved = _sensitivity(ctx, model, data, decl, y0, g)
-    if not moved < (1e-3 if ctx.f64 else 0.04) * scale:   # input change 1e-8 (1e-4) moves the output that much: chaotic
+    ctx.noise, err32 = _rounding_noise(ctx, other, data, decl, y0)
+    if not err32 < 1e-3 * scale:       # float32 keeps fewer than 3 digits of this net's output: chaotic
         ctx.count("degenerate_ill_conditioned_skipped")
         return res
 
